@@ -691,4 +691,151 @@ theorem go_total (p : Params) (l : List Item) (n : Nat) (hw : p.widths ≠ []) (
         exact ⟨_, by rw [go]; simp only [hstep, hls]; rfl⟩
       · cases h.1
 
+/-! ## the executable verdict accepts the model's own lines -/
+
+theorem validFrom_tail {l : List Item} {lo b nb : Nat} {r : List Nat}
+    (h : validFrom l lo (b :: nb :: r) = true) :
+    ∃ it, l[b]? = some it ∧ it.isBreak = true ∧ validFrom l (b + 1 + it.replace) (nb :: r) = true := by
+  simp only [validFrom, Bool.and_eq_true, decide_eq_true_eq] at h
+  obtain ⟨_, h2⟩ := h
+  cases hit : l[b]? with
+  | none => rw [hit] at h2; simp at h2
+  | some it =>
+    rw [hit] at h2
+    simp only [Bool.and_eq_true] at h2
+    exact ⟨it, rfl, h2.1, h2.2⟩
+
+theorem droppedOf_length (l : List Item) : ∀ (bs : List Nat) (lo : Nat), validFrom l lo bs = true →
+    (droppedOf l bs).length + 1 = bs.length := by
+  intro bs
+  induction bs with
+  | nil => intro lo h; simp [validFrom] at h
+  | cons b rest ih =>
+    intro lo h
+    cases rest with
+    | nil => simp [droppedOf]
+    | cons nb r =>
+      obtain ⟨it, hit, _, hv⟩ := validFrom_tail h
+      simp only [droppedOf, hit, List.length_cons]
+      have := ih _ hv
+      simp only [List.length_cons] at this
+      omega
+
+theorem droppedOf_get (l : List Item) : ∀ (bs : List Nat) (lo i b : Nat), validFrom l lo bs = true →
+    bs[i]? = some b → i + 1 < bs.length →
+    ∃ it gone, l[b]? = some it ∧ (droppedOf l bs)[i]? = some ⟨it, gone⟩ := by
+  intro bs
+  induction bs with
+  | nil => intro lo i b h; simp [validFrom] at h
+  | cons b0 rest ih =>
+    intro lo i b h hb hi
+    cases rest with
+    | nil => simp at hi
+    | cons nb r =>
+      obtain ⟨it, hit, _, hv⟩ := validFrom_tail h
+      cases i with
+      | zero =>
+        simp only [List.getElem?_cons_zero, Option.some.injEq] at hb
+        subst hb
+        exact ⟨it, goneAfter l b nb, hit, by simp [droppedOf, hit]⟩
+      | succ j =>
+        simp only [List.getElem?_cons_succ] at hb
+        obtain ⟨it', gone, h1, h2⟩ := ih _ j b hv hb (by simpa using hi)
+        exact ⟨it', gone, h1, by simp [droppedOf, hit, h2]⟩
+
+/-- The last break position of a valid sequence is the length of the list. -/
+theorem validFrom_last (l : List Item) : ∀ (bs : List Nat) (lo i b : Nat), validFrom l lo bs = true →
+    bs[i]? = some b → i + 1 = bs.length → l[b]? = none := by
+  intro bs
+  induction bs with
+  | nil => intro lo i b h; simp [validFrom] at h
+  | cons b0 rest ih =>
+    intro lo i b h hb hi
+    cases rest with
+    | nil =>
+      simp only [List.length_cons, List.length_nil] at hi
+      have : i = 0 := by omega
+      subst this
+      simp only [List.getElem?_cons_zero, Option.some.injEq] at hb
+      subst hb
+      simp only [validFrom, Bool.and_eq_true, decide_eq_true_eq] at h
+      rw [h.2]; simp
+    | cons nb r =>
+      obtain ⟨it, hit, _, hv⟩ := validFrom_tail h
+      cases i with
+      | zero => simp at hi
+      | succ j =>
+        simp only [List.getElem?_cons_succ] at hb
+        exact ih _ j b hv hb (by simpa using hi)
+
+theorem breakPart_post {o : Option Item} {brk : List Item} {pd : Option (List Elem)} {sk : Nat}
+    (h : breakPart o = .ok (brk, pd, sk)) : pendingItems pd = postOf o := by
+  cases o with
+  | none =>
+    simp only [breakPart, Except.ok.injEq, Prod.mk.injEq] at h
+    obtain ⟨_, rfl, _⟩ := h; rfl
+  | some it =>
+    cases it <;> simp only [breakPart, Except.ok.injEq, Prod.mk.injEq, reduceCtorEq] at h <;>
+      first
+      | (obtain ⟨_, rfl, _⟩ := h; rfl)
+
+/-- The post-break material at the start of each line is that of the discretionary (if any)
+at the previous break. -/
+theorem go_post (p : Params) (l : List Item) (n : Nat) :
+    ∀ (bs : List Nat) (idx start : Nat) (pending : Option (List Elem)) (lines : List Line),
+      go p l n idx start pending bs = .ok lines →
+      (∀ ln, lines[0]? = some ln → ln.post = pendingItems pending) ∧
+      ∀ (i : Nat) (ln : Line) (b : Nat), lines[i + 1]? = some ln → bs[i]? = some b →
+        ln.post = postOf l[b]? := by
+  intro bs
+  induction bs with
+  | nil =>
+    intro idx start pending lines h
+    simp [go] at h; subst h; simp
+  | cons b0 rest ih =>
+    intro idx start pending lines h
+    simp only [go] at h
+    split at h
+    · simp at h
+    · rename_i ln0 start' pend' hstep
+      split at h
+      · simp at h
+      · rename_i ls hgo
+        simp only [Except.ok.injEq] at h
+        subst h
+        obtain ⟨_, _, brk, skip, k, w, pen, hbrk, _, _, _, _, hln, _⟩ := step_ok hstep
+        obtain ⟨ih0, ihs⟩ := ih (idx + 1) start' pend' ls hgo
+        refine ⟨?_, ?_⟩
+        · intro ln hl
+          simp only [List.getElem?_cons_zero, Option.some.injEq] at hl
+          subst hl; rw [hln]
+        · intro i ln b hl hb
+          simp only [List.getElem?_cons_succ] at hl
+          cases i with
+          | zero =>
+            simp only [List.getElem?_cons_zero, Option.some.injEq] at hb
+            subst hb
+            rw [ih0 ln hl, breakPart_post hbrk]
+          | succ j =>
+            simp only [List.getElem?_cons_succ] at hb
+            exact ihs j ln b hl hb
+
+/-! ## inter-word glue -/
+
+theorem scaleBySf_spec (mp : Glue) (extra sf : Int)
+    (b1 : 0 < sf) (b2 : sf ≤ 32767)
+    (b3 : -maxDimen ≤ Int.tdiv (mp.st * sf) 1000) (b4 : Int.tdiv (mp.st * sf) 1000 ≤ maxDimen)
+    (b5 : -maxDimen ≤ Int.tdiv (mp.sh * 1000) sf) (b6 : Int.tdiv (mp.sh * 1000) sf ≤ maxDimen) :
+    scaleBySf mp extra sf =
+      .ok { mp with w := if sf ≥ 2000 then mp.w + extra else mp.w,
+                    st := Int.tdiv (mp.st * sf) 1000, sh := Int.tdiv (mp.sh * 1000) sf } := by
+  unfold scaleBySf xnOverD
+  have c1 : ¬ (sf > 65536 ∨ (1000 : Int) > 65536) := by omega
+  have c2 : ¬ ((1000 : Int) > 65536 ∨ sf > 65536) := by omega
+  have c3 : ¬ ((1000 : Int) = 0) := by omega
+  have c4 : ¬ (sf = 0) := by omega
+  have d1 : ¬ (Int.tdiv (mp.st * sf) 1000 < -maxDimen ∨ Int.tdiv (mp.st * sf) 1000 > maxDimen) := by omega
+  have d2 : ¬ (Int.tdiv (mp.sh * 1000) sf < -maxDimen ∨ Int.tdiv (mp.sh * 1000) sf > maxDimen) := by omega
+  simp only [c1, c2, c3, c4, d1, d2, if_false]
+
 end C12
